@@ -927,7 +927,9 @@ fn regex_case(ctx: &mut Ctx, ps: &mut Passes) {
     let n = 1 + r.below(6);
     let mut input = String::new();
     let mut expected: Vec<Vec<(String, J)>> = vec![];
-    let outside = ['X', 'Y', 'Z', ' ', ';', '!', 'Q'];
+    // characters outside every class of the regex AS WRITTEN — among them the upper-case forms of
+    // the word class's letters: the user's regex is case-sensitive unless it says otherwise
+    let outside = ['X', 'Y', 'Z', ' ', ';', '!', 'Q', 'B', 'D', 'G', 'H'];
     for _ in 0..n {
         let mut line = String::new();
         let np = r.below(4);
